@@ -28,6 +28,20 @@ TECH = ("contract-based deductive verification: sidecar pre/postconditions on th
         "VCs generated from /repo's AST by pyvc, discharged by z3/cvc5")
 
 PROPS = {
+    "C17": {
+        "technique": TECH,
+        "level_text": "utils.read_bytes is proved, for every byte string, to follow the sniffing order "
+                      "BOM (longest first) > XML declaration > meta charset > default, to decode the "
+                      "payload after the byte-order mark, and to report XML exactly for documents that "
+                      "start with an XML declaration.",
+        "level_note": "Trusted: codec behaviour (uninterpreted bytes.decode with BOM axioms, "
+                      "conformance-tested); BOM table read from the live module on this (little-endian) "
+                      "host. Assumed contracts: read_xml_encoding, detect_encoding (regex bodies).",
+        "units": [K("utils.py::read_bytes")],
+        "not_decided": ["RE_META fixes the attribute order http-equiv before content (finding D16)",
+                        "template.write/read/parse plumbing (pending)"],
+        "assumptions": COMMON_ASSUMPTIONS + ["bytes are modelled as strings of code points 0..255"],
+    },
     "C08": {
         "technique": TECH,
         "level_text": "index/number/start/end/odd/even/parity/letter/Letter/Roman of tal.RepeatItem are "
